@@ -266,3 +266,25 @@ pub fn cmp_le_bytes(a: &[u8], b: &[u8]) -> core::cmp::Ordering {
         core::cmp::Ordering::Equal
     }
 }
+
+/// limb-wise equality (a `==` on arrays is a byte-wise memcmp loop under CBMC: 8x more iterations)
+pub fn eqn<const N: usize>(a: &[u64; N], b: &[u64; N]) -> bool {
+    let mut e = true;
+    let mut i = 0;
+    while i < N {
+        e &= a[i] == b[i];
+        i += 1;
+    }
+    e
+}
+
+/// byte-wise equality with an explicit loop
+pub fn eqb<const N: usize>(a: &[u8; N], b: &[u8; N]) -> bool {
+    let mut e = true;
+    let mut i = 0;
+    while i < N {
+        e &= a[i] == b[i];
+        i += 1;
+    }
+    e
+}
